@@ -101,6 +101,7 @@ theorem mono_step : ∀ n : Nat,
         | atom k => simpa [parseUnit] using h
         | rpar => simp [parseUnit] at h
         | lit w => simp [parseUnit] at h
+        | kw k => simp [parseUnit] at h
         | lpar =>
           simp only [parseUnit] at h ⊢
           cases he : parseE tbl n 0 ts' with
@@ -124,6 +125,7 @@ theorem mono_step : ∀ n : Nat,
         | rpar => simpa [parseLoop] using h
         | lpar => simpa [parseLoop] using h
         | lit w => simpa [parseLoop] using h
+        | kw k => simpa [parseLoop] using h
         | sym t v =>
           simp only [parseLoop] at h ⊢
           cases hb : tbl.bin t with
@@ -182,6 +184,7 @@ theorem loop_return (r : Nat) (lhs : Expr α) (ts : List (Tok α)) (h : Stop tbl
     | rpar => simp [parseLoop]
     | lpar => simp [parseLoop]
     | lit w => simp [parseLoop]
+    | kw k => simp [parseLoop]
     | sym t v =>
       simp only [parseLoop]
       unfold Stop at h
@@ -366,6 +369,7 @@ theorem parse_inv : ∀ n : Nat,
           exact ⟨trivial, rfl, stop_nil tbl _⟩
         | rpar => simp [parseUnit] at h
         | lit w => simp [parseUnit] at h
+        | kw k => simp [parseUnit] at h
         | lpar =>
           simp only [parseUnit] at h
           cases he : parseE tbl n 0 ts' with
@@ -385,6 +389,7 @@ theorem parse_inv : ∀ n : Nat,
               | atom k => simp at h
               | lpar => simp at h
               | lit w => simp at h
+              | kw k => simp at h
               | sym t v => simp at h
         | sym t v =>
           simp only [parseUnit] at h
@@ -416,6 +421,7 @@ theorem parse_inv : ∀ n : Nat,
         | rpar => exact ret (by simp [Stop]) (by simpa [parseLoop] using h)
         | lpar => exact ret (by simp [Stop]) (by simpa [parseLoop] using h)
         | lit w => exact ret (by simp [Stop]) (by simpa [parseLoop] using h)
+        | kw k => exact ret (by simp [Stop]) (by simpa [parseLoop] using h)
         | sym t v =>
           simp only [parseLoop] at h
           cases hb : tbl.bin t with
